@@ -800,12 +800,16 @@ func findSegmentData(segs []*MediaSegment, refTrak *TrakBox, trex *TrexBox) ([]s
 				}
 			}
 		}
+		segSize := seg.Size()
+		if segSize > 0x7fffffff {
+			return nil, fmt.Errorf("segment size %d does not fit in 31-bit sidx referenced_size", segSize)
+		}
 		sd := segData{
 			startPos:         seg.StartPos,
 			presentationTime: uint64(int64(baseTime) + firstCompositionTimeOffest),
 			baseDecodeTime:   baseTime,
 			dur:              dur,
-			size:             uint32(seg.Size()),
+			size:             uint32(segSize),
 		}
 		segDatas = append(segDatas, sd)
 	}
